@@ -22,6 +22,7 @@ use octo_squirrel::manager::shadowsocks::ServerUser;
 use octo_squirrel::manager::shadowsocks::ServerUserManager;
 use octo_squirrel::protocol::address::Address;
 use octo_squirrel::protocol::shadowsocks::Mode;
+use octo_squirrel::protocol::shadowsocks::aead_2022::password_to_exact_keys;
 use octo_squirrel::protocol::shadowsocks::aead_2022::password_to_keys;
 use rand::random;
 use tcp::PayloadCodec;
@@ -300,7 +301,7 @@ mod tcp {
         pub fn init(config: &ServerConfig<SslConfig>, user_manager: Arc<ServerUserManager<N>>) -> Result<Self> {
             let kind = config.cipher;
             let (key, identity_keys) = if kind.is_aead_2022() {
-                password_to_keys(&config.password).map_err(|e| anyhow!(e))?
+                password_to_exact_keys(&config.password).map_err(|e| anyhow!(e))?
             } else {
                 let key = aead::openssl_bytes_to_key(config.password.as_bytes());
                 (key, Vec::with_capacity(0))
